@@ -48,6 +48,9 @@ var pinnedKeyFormats = map[string]string{
 
 func checkC13(c *Ctx) {
 	l := c.L
+	checkDecodedValueNonNil(c)
+	c.rule("OWN-node-version", "a node's version (part of its stored form and of its hash) is fixed when the node is created or first keyed; re-keying keeps it", 1)
+	checkNodeVersionOwner(c)
 	checkRootRecordEmpty(c, "TABLE-root-record")
 	c.rule("FORMAT-node", "node encoder / decoder layouts equal the pinned format", 3)
 	c.rule("FORMAT-fastnode", "fast-node encoder / decoder layouts equal the pinned format", 2)
@@ -199,6 +202,8 @@ func checkTotalC13(c *Ctx) {
 	c.rule("TOTAL-decoders", "decoders of stored bytes have no reachable panic site, unbounded allocation or loop", 40)
 	names := []struct{ rel, name string }{
 		{"internal/encoding", "DecodeBytes"}, {"internal/encoding", "DecodeUvarint"}, {"internal/encoding", "DecodeVarint"},
+		// the encoders run on DECODED values too (MakeNode hashes every decoded leaf: height, size, version go through EncodeVarint)
+		{"internal/encoding", "EncodeVarint"}, {"internal/encoding", "EncodeUvarint"}, {"internal/encoding", "EncodeBytes"},
 		{"", "MakeNode"}, {"", "MakeLegacyNode"}, {"", "GetNodeKey"}, {"fastnode", "DeserializeNode"},
 		{"", "*nodeDB.GetRoot"}, {"", "isReferenceRoot"}, {"", "*NodeKey.GetKey"}, {"", "GetRootKey"}, {"", "*Node.isLeaf"},
 	}
@@ -244,6 +249,7 @@ func checkTotalC13(c *Ctx) {
 		return 0, false
 	}
 	an.trustedInvoke = commonTrustedInvoke
+	an.assertOK = func(ta *ssa.TypeAssert) bool { return poolAssertOK(l, ta) }
 	an.trustedCallee = func(f *ssa.Function) bool {
 		if strings.HasPrefix(f.String(), "(*"+l.ModPath+"/keyformat.") {
 			return true // key formatters: constant non-negative widths (FORMAT-keys)
@@ -252,6 +258,8 @@ func checkTotalC13(c *Ctx) {
 		case "(*iavl.Node)._hash": // hashing a freshly decoded leaf: in-memory, fixed-size buffers
 			return true
 		case "(*iavl.nodeDB).legacyRootKey", "(*iavl.nodeDB).nodeKey":
+			return true
+		case "internal/encoding.fVarintEncode": // a loop over a uint64 that loses 7 bits per round; no index, no allocation
 			return true
 		}
 		return false
